@@ -304,6 +304,27 @@ fn image_calls(d: &Value, out: &mut Vec<Value>) {
                     Image::new(&img, pos).draw(&mut t.color_converted()).unwrap();
                     (t.steps, !t.over, -1)
                 });
+                // ImageDrawable::draw_sub_image called directly with areas that are not inside the image: beyond the right /
+                // bottom edge (strictly and exactly), negative, overhanging; nothing may be drawn for them
+                call(out, "image_draw_sub_image_out_of_range", || {
+                    use embedded_graphics::image::ImageDrawable;
+                    let (w, h) = (size.width as i32, size.height as i32);
+                    let mut rejected = 1;
+                    let mut n = 0;
+                    for a in [Rectangle::new(Point::new(w + 1, 0), Size::new(1, 1)), Rectangle::new(Point::new(0, h + 2), Size::new(2, 1)),
+                              Rectangle::new(Point::new(w + 7, h + 9), Size::new(3, 3)), Rectangle::new(Point::new(w, 0), Size::new(1, 1)),
+                              Rectangle::new(Point::new(0, h), Size::new(1, 1)), Rectangle::new(Point::new(-1, 0), Size::new(2, 1)),
+                              Rectangle::new(Point::new(0, -3), Size::new(1, 4)), Rectangle::new(Point::new(w - 1, h - 1), Size::new(2, 2)),
+                              Rectangle::new(Point::new(1024, 1024), Size::new(1024, 1024)), Rectangle::new(Point::new(w + 1, h + 1), Size::new(0, 0))] {
+                        let mut t = NullTarget::new(CAP);
+                        img.draw_sub_image(&mut t.color_converted(), &a).unwrap();
+                        n += 1;
+                        if !a.is_zero_sized() && t.steps > 0 {
+                            rejected = 0;
+                        }
+                    }
+                    (n, true, rejected)
+                });
                 call(out, "sub_image_draw", || {
                     let mut t = NullTarget::new(CAP);
                     let s1 = img.sub_image(&sub);
